@@ -8,6 +8,7 @@ package main
 import (
 	"bytes"
 	"context"
+	"encoding/binary"
 	"errors"
 	"fmt"
 	"io"
@@ -71,7 +72,8 @@ type ChanCase struct {
 	NoTrace  bool         `json:"no_trace"`
 	Scribble bool         `json:"scribble"` // C10: after every step another pool user obtains and overwrites pooled buffers of every size class
 	Swallow  bool         `json:"swallow"` // the probe's exception handler consumes every exception
-	Codec    bool         `json:"codec"` // pipeline = text codec + delimiter codec ("\x00"); wire parsed by delimiter
+	CodecKind string      `json:"codec"` // "delim": text codec + delimiter codec ("\x00"); "lf": 2-byte length-field codec; wire parsed into frames
+	Codec    bool         `json:"-"`
 	Props    []string     `json:"props"` // which oracles to apply (empty = all)
 }
 
@@ -572,6 +574,10 @@ func (w *chanWorld) parse() {
 // parseFrames (codec mode): the wire is a sequence of frames terminated by the delimiter; every
 // complete frame must be exactly the body of one message
 func (w *chanWorld) parseFrames(stream []byte) {
+	if w.c.CodecKind == "lf" {
+		w.parseLF(stream)
+		return
+	}
 	for {
 		rest := stream[w.parsedOff:]
 		k := bytes.IndexByte(rest, 0)
@@ -604,6 +610,39 @@ func (w *chanWorld) parseFrames(stream []byte) {
 			ck.inPos = len(w.parsed)
 		}
 		w.parsed = append(w.parsed, ck)
+	}
+}
+
+// parseLF (length-field codec mode): 2-byte big-endian length, then that many body bytes; every
+// complete frame must be exactly one message, and its header must state that message's length
+func (w *chanWorld) parseLF(stream []byte) {
+	for {
+		rest := stream[w.parsedOff:]
+		if len(rest) < 3 {
+			return
+		}
+		// the body starts with the message id byte: find the message first, then judge the header
+		ck := w.byID[rest[2]]
+		if ck == nil {
+			w.fail("C09", "carrier=MD/codec-frame", fmt.Sprintf("wire offset %d: a length header is not followed by the start of a message", w.parsedOff))
+			w.parsedOff = len(stream)
+			return
+		}
+		if len(rest) < 2+len(ck.data) {
+			return
+		}
+		hv := int(binary.BigEndian.Uint16(rest[:2]))
+		if hv != len(ck.data) {
+			w.fail("C04", "encoder-header/concurrent", fmt.Sprintf("message %s.%d (%d bytes) was framed with length header %d under concurrent writers", ck.op.w, ck.op.idx, len(ck.data), hv))
+		}
+		if string(rest[2:2+len(ck.data)]) != string(ck.data) {
+			w.fail("C09", "carrier=MD/codec-frame", fmt.Sprintf("the body after the header of %s.%d is not that message: bytes of different messages interleaved", ck.op.w, ck.op.idx))
+		}
+		if ck.inPos < 0 {
+			ck.inPos = len(w.parsed)
+		}
+		w.parsed = append(w.parsed, ck)
+		w.parsedOff += 2 + len(ck.data)
 	}
 }
 
@@ -803,8 +842,13 @@ func runChanCase(c *ChanCase) *ChanResult {
 		w.tr.Feed(mock.ReadItem{Data: []byte{byte(i + 1)}})
 	}
 	pl := netty.NewPipeline()
-	if c.Codec {
+	c.Codec = c.CodecKind != ""
+	switch c.CodecKind {
+	case "delim":
 		pl.AddLast(frame.DelimiterCodec(1<<20, "\x00", true), format.TextCodec())
+		c.NoTrace = true
+	case "lf":
+		pl.AddLast(frame.LengthFieldCodec(binary.BigEndian, 1<<20, 0, 2, 0, 2))
 		c.NoTrace = true
 	}
 	pl.AddLast(probe{w})
